@@ -2,7 +2,7 @@
 (* Reference rule schemas of C18 (Alethe rules as sets of intended instances over small pools), explicit near misses, *)
 (* and the generic one-point mutations producing the near-miss candidates.  See C18_Alethe.tla.                       *)
 EXTENDS C18_Sem
-CONSTANTS Rich,        \* larger seed pools
+CONSTANTS Level,       \* 1..3: size of the seed pools
           MutDepth     \* depth to which one-point mutations descend into terms
 
 \* ------------------------------------------------------------------ signature
@@ -55,13 +55,13 @@ Neg1(s) == [k \in 1..Len(s) |-> Neg(s[k])]
 Eqv(l, r) == <<Iff(l, r)>>                 \* clause of a simplification step
 
 \* seed pools
-FS1 == {vp, Neg(vq), Conj(vp, vq)} \cup (IF Rich THEN {Iff(vp, vq), Eqa(ca, cb), Imp(vp, vr), TrueC} ELSE {})
-FS2 == {<<vp, vq>>, <<Neg(vp), Conj(vq, vr)>>}
-       \cup (IF Rich THEN {<<vp, vp>>, <<Disj(vp, vq), Neg(vq)>>, <<Iff(vp, vq), vr>>, <<Eqa(ca, cb), F1(pP, ca)>>, <<vp, FalseC>>} ELSE {})
-FS3 == {<<vp, vq, vr>>, <<Neg(vp), vq, Conj(vp, vr)>>}
-       \cup (IF Rich THEN {<<vp, vq, vp>>, <<Iff(vp, vq), Neg(vr), vq>>, <<F1(pP, ca), vq, Eqa(ca, cb)>>} ELSE {})
-FSN == {<<vp, vq>>, <<vp, vq, vr>>, <<Neg(vp), Disj(vq, vr), vr>>}
-       \cup (IF Rich THEN {<<vp, vq, vr, vs>>, <<vp, vp, vq>>, <<Conj(vp, vq), vr, Neg(vr)>>} ELSE {})
+FS1 == {vp, Neg(vq)} \cup (IF Level >= 2 THEN {Conj(vp, vq)} ELSE {}) \cup (IF Level >= 3 THEN {Iff(vp, vq), Eqa(ca, cb), Imp(vp, vr), TrueC} ELSE {})
+FS2 == {<<Neg(vp), Conj(vq, vr)>>} \cup (IF Level >= 2 THEN {<<vp, vq>>} ELSE {})
+       \cup (IF Level >= 3 THEN {<<vp, vp>>, <<Disj(vp, vq), Neg(vq)>>, <<Iff(vp, vq), vr>>, <<Eqa(ca, cb), F1(pP, ca)>>, <<vp, FalseC>>} ELSE {})
+FS3 == {<<Neg(vp), vq, Conj(vp, vr)>>} \cup (IF Level >= 2 THEN {<<vp, vq, vr>>} ELSE {})
+       \cup (IF Level >= 3 THEN {<<vp, vq, vp>>, <<Iff(vp, vq), Neg(vr), vq>>, <<F1(pP, ca), vq, Eqa(ca, cb)>>} ELSE {})
+FSN == {<<Neg(vp), Disj(vq, vr), vr>>} \cup (IF Level >= 2 THEN {<<vp, vq>>, <<vp, vq, vr>>} ELSE {})
+       \cup (IF Level >= 3 THEN {<<vp, vq, vr, vs>>, <<vp, vp, vq>>, <<Conj(vp, vq), vr, Neg(vr)>>} ELSE {})
 
 \* ------------------------------------------------------------------ schemas: clausification / tautologies (no premise)
 R_false == { I("verit_false", <<>>, <<Neg(FalseC)>>) }
@@ -121,7 +121,7 @@ R_th_resolution ==
     IX("verit_th_resolution", <<PS(Disj(vp, vq)), PS(Neg(Disj(vp, vq)))>>, <<>>, RX(<<1, 1>>)),
     IX("verit_th_resolution", <<PS(Neg(TrueC))>>, <<>>, RX(<<1>>)),
     IX("verit_th_resolution", <<PS(vp), PS(Iff(Neg(Neg(vp)), vq))>>, <<vq>>, RX(<<1, 1>>)) }
-  \cup (IF Rich THEN
+  \cup (IF Level >= 3 THEN
   { IX("verit_th_resolution", <<PS(OrN(<<vp, vq, vr>>)), PS(Disj(Neg(vq), vs)), PS(Disj(Neg(vr), vs))>>, <<vp, vs>>, RX(<<3, 2, 2>>)),
     IX("verit_th_resolution", <<PS(Disj(F1(pP, ca), Eqa(ca, cb))), PS(Neg(F1(pP, ca)))>>, <<Eqa(ca, cb)>>, RX(<<2, 1>>)),
     IX("verit_th_resolution", <<PS(Disj(vp, vq)), PS(Disj(vr, vs))>>, <<vp, vq>>, RX(<<2, 2>>)),
